@@ -1,6 +1,6 @@
 SPECIFICATION Spec
 CONSTANTS
-  MaxOps = 3
+  MaxOps = 4
   SplitPairs = FALSE
   RenameTwice = FALSE
   NonRecDirs = FALSE
